@@ -97,6 +97,7 @@ Variable robust_leaf : nat -> bool.     (* the marshal routine of leaf s returns
 Variable wire_leaf : nat -> bool.       (* ... on every valid input *)
 Variable none_ok : bool.                (* the NoneType routine returns wire data on every input it accepts *)
 Variable R : nat -> bool.               (* names whose definitions are robust (a self-consistent set, see env_robust) *)
+Variable F : nat -> bool.               (* names whose definitions are fully annotated (see env_fa) *)
 
 Fixpoint robust_ty (t : ty) : bool :=
   match t with
@@ -119,7 +120,7 @@ Fixpoint fa_ty (t : ty) : bool :=
   | TMap _ kt vt => fa_ty kt && fa_ty vt
   | TTuple ts => forallb fa_ty ts
   | TUnion ts => forallb robust_ty ts
-  | TName _ | TRef _ | TAliasStr _ _ => true
+  | TName c | TRef c | TAliasStr _ c => F c
   | TNewType _ t' | TAlias _ t' | TFinal t' | TClassVar t' | TRefTo t' => fa_ty t'
   end.
 
@@ -128,9 +129,10 @@ Definition def_ok (ok : ty -> bool) (d : ndef) : bool :=
   | NClass cd => forallb (fun f => ok (fty f)) (cfields cd)
   | NType t => ok t
   end.
-(* every definition named by R is robust, every definition is fully annotated *)
+(* every definition named by R is robust, every definition named by F is fully annotated (recursive and mutually
+   recursive classes are fine: the sets only have to be closed under "mentions") *)
 Definition env_robust : Prop := forall c d, R c = true -> E c = Some d -> def_ok robust_ty d = true.
-Definition env_fa : Prop := forall c d, E c = Some d -> def_ok fa_ty d = true.
+Definition env_fa : Prop := forall c d, F c = true -> E c = Some d -> def_ok fa_ty d = true.
 Definition fully_annotated (t : ty) : Prop := env_robust /\ env_fa /\ fa_ty t = true.
 
 (* ---- valid instances ---- *)
